@@ -42,7 +42,7 @@ ASSUMPTIONS = [
     "the port gateway runs with the library's own debug switch for the duty-cycle limiter on (transmit regulation is C11's subject; the bucket is process-global and wall-clock driven)",
     "exceptions reaching the event-loop handler from deferred entity handlers are recorded as information (the statement judges views and the engine)",
 ]
-REQUIRED = {"histories": 16, "views.read": 2000, "ops.get_state": 50, "ops.restore": 50, "markers.handled": 50, "port.sends": 3, "foreign.checked": 3}
+REQUIRED = {"ops.restore.overlap": 5, "views.after_tx_quiet_period": 3, "histories": 16, "views.read": 2000, "ops.get_state": 50, "ops.restore": 50, "markers.handled": 50, "port.sends": 3, "foreign.checked": 3}
 
 MARKER_DEV = "34:000999"
 GWY_ID = "18:006402"
@@ -336,7 +336,7 @@ async def snapshot_ops(rig: Rig, rng) -> None:
     # --- restore
     if pkts is None:
         return
-    kind = rng.choice(("own", "own", "corrupt", "cancel", "twice", "slow"))
+    kind = rng.choice(("own", "own", "corrupt", "cancel", "twice", "slow", "overlap"))
     pollers_before = live_pollers(gwy)
     ctx.count("ops.restore")
     ctx.count(f"ops.restore.{kind}")
@@ -354,6 +354,23 @@ async def snapshot_ops(rig: Rig, rng) -> None:
                 await task
             except asyncio.CancelledError:
                 outcome = "cancelled"
+        elif kind == "overlap":
+            # an application saves its state (or restores again) while a restore is still running: the second
+            # operation may be refused - neither may leave the engine other than it was
+            task = asyncio.ensure_future(gwy._restore_cached_packets(payload))
+            for _ in range(rng.choice((1, 2, 3, 5, 9))):
+                await asyncio.sleep(0)
+            inner = rng.choice(("get_state", "get_state", "restore"))
+            ctx.count(f"ops.overlap.{inner}")
+            try:
+                if inner == "get_state":
+                    gwy.get_state()
+                else:
+                    await asyncio.wait_for(gwy._restore_cached_packets(dict(pkts)), timeout=300)
+                ctx.count("ops.overlap.inner_returned")
+            except Exception:  # noqa: BLE001  (refusing is fine)
+                ctx.count("ops.overlap.inner_refused")
+            await asyncio.wait_for(task, timeout=300)
         else:
             await asyncio.wait_for(gwy._restore_cached_packets(payload), timeout=300)
             if kind == "twice":
@@ -413,6 +430,12 @@ async def run_history(loop: vloop.VirtualLoop, ctx, h: hist.History, stack: str,
             read_views(ctx, gwy, rig.trail, f"packet {i}")
         if i in op_at:
             await snapshot_ops(rig, rng)
+            if stack == "port" and rng.random() < 0.25:
+                # the gateway has transmitted (the probe above) and then stays silent for more than five minutes
+                # (discovery off, or nothing due): the views - the transport's Tx statistics among them - still answer
+                await asyncio.sleep(rng.choice((299.0, 301.0, 330.0, 1000.0)))
+                ctx.count("views.after_tx_quiet_period")
+                read_views(ctx, gwy, rig.trail, f"packet {i} + Tx-quiet period")
             if gwy._engine_state is not None or gwy._protocol._msg_handler is None:
                 foreign = False  # wedged: recorded above, nothing more to learn from this history
                 break
@@ -472,7 +495,7 @@ def episode(ctx, local: int, gtrial: int) -> None:
     discovery = stack == "port" and rng.random() < 0.5
 
     async def go(loop):
-        with clocks_patched(entity_dt=(stack == "port")):
+        with clocks_patched(entity_dt=(stack == "port"), transport_dt=(stack == "port")):
             await run_history(loop, ctx, h, stack, eavesdrop, gtrial, discovery)
 
     try:
